@@ -93,7 +93,8 @@ class Shard(object):
             rf = os.path.join(outdir, self.tag + ".result")
             if os.path.exists(rf):
                 os.unlink(rf)
-            errf = open(os.path.join(outdir, self.tag + ".stderr"), "wb")
+            # the library prints every raised error to stderr: keep it only when asked to
+            errf = open(os.path.join(outdir, self.tag + ".stderr") if os.environ.get("VF_KEEP") else os.devnull, "wb")
             try:
                 p = subprocess.Popen([PY, "-m", "verif.worker", json.dumps(self.spec)], env=env, cwd=VERIF,
                                      stdout=subprocess.DEVNULL, stderr=errf)
